@@ -6,11 +6,17 @@ usage: universe.py <PROPERTY>     env: VERIF_REPO (default /repo), VERIF_TIER (q
 prints one JSON document: {"name", "label": "bounded", "bounded_universe", "bounded_evaluations",
                            "bounded_distinct_nontrivial", "failures": [{"clause", "key", "input", ...}]}
 
-Universe (stated bound): 1 h slots, UTC, project 2025-01-06 (Mon) + 3 weeks; 1-2 leaf resources (efficiency 1 or
-0.5, optional dailymax, optional leave day); 2-4 leaf tasks, optionally one container; efforts from
-{1h, 3h, 8h, 13h, 20min, 90min}; priorities {100, 500, 900}; dependency DAGs with optional gapduration {0, 2h};
-ASAP (and for C08/C04 also ALAP with project-level scheduling). Projects that hit a recorded known finding
-(KNOWN_FINDINGS.json: team allocations sharing limits, ALAP tasks sharing a slot, ...) are not generated.
+Universe (stated bound): 120 (quick) / 1200 (thorough) seeded random projects per property: 1 h slots, UTC, project
+2025-01-06 (Mon) + 3 weeks; 1-2 leaf resources (efficiency 1 or 0.5, optional dailymax, optional leave day); 2-4 leaf
+tasks incl. milestones at a dependency bound, optionally one container; efforts from {1h, 3h, 8h, 13h, 20min, 90min};
+priorities {100, 500, 900}; dependency DAGs with optional gapduration {0, 2h}; ASAP (C04/C08/C11 also project-level
+ALAP). Plus per-property sub-universes: DST zones x 7-day shifts across a transition (C02); two-member teams with
+whole-slot efforts and member-restricted task limits (C03); containers with fixed-date milestones / nested packages /
+milestone-only plans (C10); a resource on leave for the whole horizon (C11); macro leakage from earlier runs (C12);
+week shifts incl. 53-week years (C14); nested containers repeating local ids, relative vs absolute references, precedes,
+comments, macros (C15); leaf-only reports over trees repeating local ids (C18). Regions of recorded open findings
+(KNOWN_FINDINGS.json: team effort ending mid-slot, teams sharing a limit, ALAP tasks sharing a slot, unaligned
+calendars, '+Nm' project lengths, duplicate report columns) are not generated; portions below 0.5 s are float dust.
 """
 import io
 import itertools
@@ -31,11 +37,11 @@ from scriptplan.parser.tjp_parser import ProjectFileParser  # noqa: E402
 
 START = dt.datetime(2025, 1, 6)
 EFFORTS = ["1h", "3h", "8h", "13h", "20min", "90min"]
-EFF_H = {"1h": 1.0, "3h": 3.0, "8h": 8.0, "13h": 13.0, "20min": 1 / 3, "90min": 1.5}
+EFF_H = {"ms": 0.0, "1h": 1.0, "3h": 3.0, "8h": 8.0, "13h": 13.0, "20min": 1 / 3, "90min": 1.5}
 
 
 # ---------------------------------------------------------------------------------------------------------------
-def gen_projects(rng, n, alap=False, limits=True, containers=True, sub_slot=True, start=START, weeks=3):
+def gen_projects(rng, n, alap=False, limits=True, containers=True, sub_slot=True, start=START, weeks=3, milestones=True):
     """n random small projects as dicts (a dict renders to .tjp text with render())."""
     out = []
     for _ in range(n):
@@ -53,6 +59,8 @@ def gen_projects(rng, n, alap=False, limits=True, containers=True, sub_slot=True
             for j in range(i):
                 if rng.random() < 0.35:
                     deps.append((j, rng.choice([0, 0, 2])))
+            if milestones and deps and rng.random() < 0.2:
+                eff = "ms"          # a milestone (no effort, no allocation) placed at its dependency bound
             tasks.append({"id": f"t{i}", "effort": eff, "res": rng.choice(res)["id"], "prio": rng.choice([100, 500, 500, 900]),
                           "deps": deps})
         cont = None
@@ -99,7 +107,7 @@ def render(p, rename=None, extra_task=None, comments=False, precedes=False, scen
                 prec[j].append((i, gap))
 
     def task_text(i, t, indent=""):
-        body = [f"effort {t['effort']}", f"allocate {rn(t['res'])}"]
+        body = [f"effort {t['effort']}", f"allocate {rn(t['res'])}"] if t["effort"] != "ms" else ["milestone"]
         if t["prio"] != 500:
             body.append(f"priority {t['prio']}")
         if not precedes:
@@ -146,7 +154,10 @@ def ledger(proj, sc=0):
     out = {}
     for r in proj.resources:
         rs = r.data[sc]
-        out[r.fullId] = {s: [(t.fullId, sec) for t, sec in lst] for s, lst in rs.slotTaskUsage.items()}
+        # portions below half a second are floating-point dust of the effort arithmetic (the properties are stated
+        # "to within the one-second rounding of reported times"): not counted as bookings
+        out[r.fullId] = {s: [(t.fullId, sec) for t, sec in lst if sec >= 0.5] for s, lst in rs.slotTaskUsage.items()}
+        out[r.fullId] = {s: lst for s, lst in out[r.fullId].items() if lst}
     return out
 
 
@@ -159,6 +170,7 @@ def check_common(p, proj, fails, key, want):
     """Property predicates evaluated on one scheduled project. `want`: set of property ids to check."""
     D = proj.attributes["scheduleGranularity"]
     led = ledger(proj)
+    used_total = {r.fullId: dict(r.data[0].slotSecondsUsed) for r in proj.resources}
     dts = dates(proj)
     res_by = {r["id"]: r for r in p["res"]}
     per_task = defaultdict(list)         # task -> [(res, slot, secs)]
@@ -197,8 +209,15 @@ def check_common(p, proj, fails, key, want):
                 fails.append({"clause": "C06:start-end", "key": key, "detail": f"{fid}: {s} .. {e}"})
             for rid, sl, sec in ent:
                 a = proj.idxToDate(sl)
-                if a + dt.timedelta(seconds=D) <= s or a >= e:
+                b = a + dt.timedelta(seconds=D)
+                if b <= s or a >= e:
                     fails.append({"clause": "C06:work-outside-interval", "key": key, "detail": f"{fid}: slot {a} vs {s}..{e}"})
+                else:
+                    # long enough to contain the work booked in the first and the last slot
+                    room = (min(b, e) - max(a, s)).total_seconds()
+                    if sec > room + 1.0:
+                        fails.append({"clause": "C06:interval-too-short", "key": key,
+                                      "detail": f"{fid}: {sec:.0f}s booked in slot {a}, only {room:.0f}s of it lie inside {s}..{e}"})
         if "C04" in want and not p["alap"]:
             for (j, gap) in t["deps"]:
                 ps, pe, psch = dts[tid(p, j)]
@@ -225,13 +244,25 @@ def check_common(p, proj, fails, key, want):
             for s_, lst in slots.items():
                 if any(tf == "g" for tf, _ in lst):
                     fails.append({"clause": "C10:container-booked", "key": key, "detail": f"{rid} slot {s_}"})
+    if "C08" in want and p["alap"]:
+        # an ALAP task ends no later than its deadline: the earliest start of the tasks that depend on it, else project end
+        for i, t in enumerate(p["tasks"]):
+            s_, e_, sch = dts[tid(p, i)]
+            if not sch:
+                continue
+            dl = proj.attributes["end"]
+            for k, t2 in enumerate(p["tasks"]):
+                if any(j == i for (j, _g) in t2["deps"]) and dts[tid(p, k)][2]:
+                    dl = min(dl, dts[tid(p, k)][0])
+            if e_ > dl:
+                fails.append({"clause": "C08:alap-deadline", "key": key, "detail": f"{tid(p, i)} ends {e_} after its deadline {dl}"})
     if "C08" in want and not p["alap"]:
         # between dependency bound and end every working, unbooked slot of an unlimited resource is used by the task
         for i, t in enumerate(p["tasks"]):
             fid = tid(p, i)
             s, e, sch = dts[fid]
             r = res_by[t["res"]]
-            if not sch or r["dailymax"]:
+            if not sch or r["dailymax"] or t["effort"] == "ms":
                 continue
             bound = proj.attributes["start"]
             for (j, gap) in t["deps"]:
@@ -244,7 +275,9 @@ def check_common(p, proj, fails, key, want):
             while proj.idxToDate(sl) + dt.timedelta(seconds=D) <= e:
                 d = proj.idxToDate(sl)
                 on_leave = r["leave"] is not None and d.date() == (p["start"] + dt.timedelta(days=r["leave"])).date()
-                used = sum(sec for _, sec in led[t["res"]].get(sl, []))
+                # "unbooked" is judged by the ledger total (it includes the reserved start offset of a successor; the
+                # re-applied offset in a later slot is the recorded finding D3 and is not re-reported through this clause)
+                used = max(sum(sec for _, sec in led[t["res"]].get(sl, [])), used_total[t["res"]].get(sl, 0.0))
                 mine = sum(sec for tf, sec in led[t["res"]].get(sl, []) if tf == fid)
                 if default_working(d) and not on_leave and used < D - 1e-6 and mine == 0 and d >= bound:
                     fails.append({"clause": "C08:idle-slot", "key": key, "detail": f"{fid}: free working slot {d} between {bound} and {e}"})
@@ -278,6 +311,9 @@ def reference_schedule(p):
         bound = p["start"]
         for (j, gap) in t["deps"]:
             bound = max(bound, done[j][1] + dt.timedelta(hours=gap))
+        if t["effort"] == "ms":
+            done[pick] = (bound, bound)
+            continue
         k = int((bound - p["start"]).total_seconds() // 3600)
         got = 0
         first = last = None
@@ -298,14 +334,14 @@ def reference_schedule(p):
 
 def whole_slot(p):
     res_by = {r["id"]: r for r in p["res"]}
-    return all((EFF_H[t["effort"]] / res_by[t["res"]]["eff"]) == int(EFF_H[t["effort"]] / res_by[t["res"]]["eff"]) for t in p["tasks"])
+    return all((EFF_H[t["effort"]] / res_by[t["res"]]["eff"]) == int(EFF_H[t["effort"]] / res_by[t["res"]]["eff"]) for t in p["tasks"])   # (milestones: 0)
 
 
 # ---------------------------------------------------------------------------------------------------------------
 def main():
     prop = sys.argv[1]
     rng = random.Random(1000 * SEED + sum(ord(c) for c in prop))
-    n = 60 if TIER == "quick" else 600
+    n = 120 if TIER == "quick" else 1200
     fails = []
     evals = 0
     nontrivial = set()
@@ -317,8 +353,8 @@ def main():
 
     if prop in single:
         projs = gen_projects(rng, n)
-        if prop in ("C04", "C11"):
-            projs += gen_projects(rng, n // 3, alap=True, limits=False, sub_slot=False)
+        if prop in ("C04", "C11", "C08"):
+            projs += gen_projects(rng, n // 3, alap=True, limits=False, sub_slot=False, milestones=False)
         for k, p in enumerate(projs):
             text = render(p)
             key = f"{prop}/{SEED}/{k}"
@@ -334,6 +370,92 @@ def main():
             check_common(p, proj, fails, key, {prop})
             for f in fails[before:]:
                 f["input"] = text
+        if prop == "C03":
+            # team sub-universe: two members of efficiency 1, whole-slot efforts (a final partial slot is the recorded
+            # finding D2), optional task limit restricted to ONE member (a limit shared by the members is finding D17),
+            # optional leave day of one member: all members are booked for exactly the same instants
+            for k in range(n // 2):
+                eff = rng.choice([2, 3, 6, 9, 13])
+                lim = rng.choice(["", "", " limits { dailymax 2h { resources r2 } }", " limits { dailymax 3h { resources r1 } }"])
+                leave = rng.choice(["", "", " vacation 2025-01-07 - 2025-01-08"])
+                other = rng.choice(["", 'task o "o" { effort 5h allocate r2 priority 900 }\n'])
+                text = ('project prj "P" 2025-01-06 +3w { timezone "UTC" }\n'
+                        f'resource r1 "r1" {{{leave} }}\nresource r2 "r2" {{}}\n' + other +
+                        f'task t "t" {{ effort {eff}h allocate r1, r2{lim} }}\n')
+                key = f"C03/team/{SEED}/{k}"
+                proj = run(text)
+                evals += 1
+                record(key, text)
+                led = ledger(proj)
+                mine = {rid: {sl: sum(sec for tf, sec in lst if tf == "t") for sl, lst in slots.items()} for rid, slots in led.items()}
+                mine = {rid: {sl: v for sl, v in m.items() if v > 0} for rid, m in mine.items()}
+                if dates(proj)["t"][2]:
+                    if mine["r1"] != mine["r2"]:
+                        fails.append({"clause": "C03:team-same-instants", "key": key, "input": text,
+                                      "detail": f"r1 {sorted(mine['r1'].items())[:6]} vs r2 {sorted(mine['r2'].items())[:6]}"})
+                    elif abs(sum(mine["r1"].values()) - eff * 3600) > 1:
+                        fails.append({"clause": "C03:team-effort", "key": key, "input": text,
+                                      "detail": f"each member booked {sum(mine['r1'].values())}s for effort {eff}h"})
+        if prop == "C10":
+            # second sub-universe: containers whose children include a fixed-date milestone (placed by the pre-pass,
+            # not by the slot walk) and nested containers
+            for k in range(n // 3):
+                d1 = START + dt.timedelta(days=rng.choice([1, 2, 3, 8]))
+                eff = rng.choice(["3h", "8h", "13h"])
+                nested = rng.random() < 0.5
+                inner = (f'  task m "m" {{ milestone start {d1.strftime("%Y-%m-%d")} }}\n'
+                         f'  task w "w" {{ effort {eff} allocate r0 }}\n')
+                shape = rng.choice(["flat", "inner", "beside", "milestones-only"]) if nested else "flat"
+                ms = f'task m "m" {{ milestone start {d1.strftime("%Y-%m-%d")} }}\n'
+                if shape == "inner":
+                    inner = "  task h \"h\" {\n" + inner + "  }\n" + '  task v "v" { effort 1h allocate r0 }\n'
+                elif shape == "beside":       # fixed milestone beside a nested work package
+                    inner = ("  " + ms + '  task h "h" {\n' + f'    task w "w" {{ effort {eff} allocate r0 }}\n'
+                             '    task x "x" { effort 3h allocate r0 depends !w }\n  }\n')
+                elif shape == "milestones-only":
+                    inner = ('  task h "h" {\n    ' + ms + f'    task m2 "m2" {{ milestone start {(d1 + dt.timedelta(days=3)).strftime("%Y-%m-%d")} }}\n  }}\n'
+                             f'  task m3 "m3" {{ milestone start {(d1 + dt.timedelta(days=5)).strftime("%Y-%m-%d")} }}\n')
+                text = ('project prj "P" 2025-01-06 +3w { timezone "UTC" }\nresource r0 "r0" {}\n'
+                        'task g "G" {\n' + inner + '}\n')
+                key = f"C10/fixed/{SEED}/{k}"
+                proj = run(text)
+                evals += 1
+                record(key, text)
+                dts = dates(proj)
+                for t in proj.tasks:
+                    if t.leaf():
+                        continue
+                    kids = [dts[c.fullId] for c in t.children]
+                    s_, e_, sch = dts[t.fullId]
+                    if sch != all(x[2] for x in kids):
+                        fails.append({"clause": "C10:scheduled-iff", "key": key, "detail": f"{t.fullId} scheduled={sch}, children {[x[2] for x in kids]}", "input": text})
+                    elif sch and (s_ != min(x[0] for x in kids) or e_ != max(x[1] for x in kids)):
+                        fails.append({"clause": "C10:span", "key": key, "detail": f"{t.fullId} {s_}..{e_} vs children {kids}", "input": text})
+        if prop == "C11":
+            # infeasible sub-universe: one resource is on leave for the whole (extended) horizon, so its tasks and
+            # everything depending on them cannot be placed: no exception may escape, they stay unscheduled, the
+            # independent rest is scheduled inside the horizon
+            for k, p in enumerate(gen_projects(rng, n // 3, containers=False, milestones=False)):
+                text = render(p).replace('resource r0 "r0" {', 'resource r0 "r0" { vacation 2025-01-01 - 2026-06-01', 1)
+                key = f"C11/infeasible/{SEED}/{k}"
+                try:
+                    proj = run(text)
+                except Exception as e:  # noqa
+                    fails.append({"clause": "C11:exception", "key": key, "detail": f"{type(e).__name__}: {e}", "input": text})
+                    continue
+                evals += 1
+                record(key, text)
+                dts = dates(proj)
+                blocked = set()
+                for i, t in enumerate(p["tasks"]):
+                    if t["res"] == "r0" or any(j in blocked for (j, _g) in t["deps"]):
+                        blocked.add(i)
+                for i, t in enumerate(p["tasks"]):
+                    s_, e_, sch = dts[tid(p, i)]
+                    if i in blocked and sch:
+                        fails.append({"clause": "C11:blocked-task-scheduled", "key": key, "detail": f"{tid(p, i)}: {s_}..{e_}", "input": text})
+                    if i not in blocked and sch and not (proj.attributes["start"] <= s_ <= e_):
+                        fails.append({"clause": "C11:outside-horizon", "key": key, "detail": f"{tid(p, i)}: {s_}..{e_}", "input": text})
         if prop == "C02":
             # second sub-universe: resources in DST-observing zones working a 7-day shift across a transition
             import zoneinfo
@@ -365,11 +487,15 @@ def main():
         for k, p in enumerate(projs):
             text = render(p)
             key = f"C07/{SEED}/{k}"
+            ref = reference_schedule(p)
+            pend = p["start"] + dt.timedelta(weeks=p["weeks"])
+            if any(v[1] is None or v[1] > pend for v in ref.values()):
+                continue            # does not fit the declared horizon: horizon extension is outside the core dialect
             proj = run(text)
             evals += 1
             record(key, text)
             got = {f: (s, e) for f, (s, e, sch) in dates(proj).items() if sch}
-            want = {f: v for f, v in reference_schedule(p).items() if v[0] is not None}
+            want = {f: v for f, v in ref.items() if v[0] is not None}
             if got != want:
                 diff = {f: (got.get(f), want.get(f)) for f in set(got) | set(want) if got.get(f) != want.get(f)}
                 fails.append({"clause": "C07:reference-schedule", "key": key, "detail": str(diff)[:400], "input": text})
@@ -406,7 +532,8 @@ def main():
                 pass
             b = dates(run(text))
             proj = run(text)
-            proj.schedule()
+            with contextlib.redirect_stdout(io.StringIO()), contextlib.redirect_stderr(io.StringIO()):
+                proj.schedule()
             c = dates(proj)
             evals += 1
             record(k, text)
@@ -543,6 +670,25 @@ def main():
                     break
             if dates(proj) != before:
                 fails.append({"clause": "C18:report-changed-schedule", "key": f"C18/{SEED}/{k}", "detail": "", "input": text})
+        # second sub-universe: leaf-only report over a tree in which leaves repeat the local ids of containers
+        for k in range(n // 3):
+            effs = [rng.choice(["2h", "5h", "8h"]) for _ in range(4)]
+            ids = rng.sample(["design", "build", "test", "impl"], 3)
+            text = ('project prj "P" 2025-01-06 +4w { timezone "UTC" }\nresource r1 "r1" {}\n'
+                    f'task {ids[0]} "A" {{\n  task {ids[1]} "B" {{ effort {effs[0]} allocate r1 }}\n  task {ids[2]} "C" {{ effort {effs[1]} allocate r1 }}\n}}\n'
+                    f'task {ids[1]} "D" {{\n  task {ids[0]} "E" {{ effort {effs[2]} allocate r1 }}\n}}\n'
+                    f'task {ids[2]} "F" {{ effort {effs[3]} allocate r1 }}\n'
+                    'taskreport rep "rep" { formats csv, json columns id, start, end leaftasksonly true }\n')
+            proj = run(text)
+            rep = [r for r in proj.reports][0]
+            rep.generate_intermediate_format() if hasattr(rep, "generate_intermediate_format") else None
+            cs = rep.content.to_csv()
+            evals += 1
+            record(("leaf", k), text)
+            want = [t.fullId for t in proj.tasks if t.leaf()]
+            got = [r[0] for r in cs[1:]]
+            if got != want:
+                fails.append({"clause": "C18:leaf-rows", "key": f"C18/leaf/{SEED}/{k}", "detail": f"rows {got} vs leaves {want}", "input": text})
     else:
         print(json.dumps({"error": f"no bounded universe for {prop}"}))
         sys.exit(3)
